@@ -942,8 +942,8 @@ impl Context {
             | "move" | "mut" | "pub" | "ref" | "return" | "self" | "static" | "struct"
             | "super" | "trait" | "true" | "type" | "unsafe" | "use" | "where" | "while" => true,
             // reserved keywords
-            "abstract" | "async" | "become" | "box" | "do" | "final" | "macro" | "override"
-            | "priv" | "typeof" | "unsized" | "virtual" | "yield" => true,
+            "abstract" | "async" | "await" | "become" | "box" | "do" | "final" | "macro"
+            | "override" | "priv" | "try" | "typeof" | "unsized" | "virtual" | "yield" => true,
             // weak keywords
             "union" | "dyn" => true,
             _ => false,
